@@ -112,6 +112,8 @@ type Explorer struct {
 	P *Prog
 	// Atom seeds the value of v for the current row (ok=false: not an atom).
 	Atom func(v ssa.Value) (AVal, bool)
+	// AtomSt is Atom with access to the path state (bindings of inlined parameters).
+	AtomSt func(v ssa.Value, st *State) (AVal, bool)
 	// Effect labels an executed instruction ("" = not an effect).
 	Effect func(in ssa.Instruction, st *State) string
 	// Inline decides whether a module callee is explored in place.
@@ -191,6 +193,11 @@ func (s *State) Eval(v ssa.Value) AVal {
 	if s.ex.Atom != nil {
 		if a, ok := s.ex.Atom(v); ok {
 			s.env[v] = a
+			return a
+		}
+	}
+	if s.ex.AtomSt != nil {
+		if a, ok := s.ex.AtomSt(v, s); ok {
 			return a
 		}
 	}
@@ -412,6 +419,12 @@ func (e *Explorer) instrs(fn *ssa.Function, b *ssa.BasicBlock, from int, st *Sta
 				if a, ok := e.Atom(x); ok {
 					// a seeded call is not explored
 					st.env[x] = a
+					e.effect(in, st)
+					continue
+				}
+			}
+			if e.AtomSt != nil {
+				if _, ok := e.AtomSt(x, st); ok {
 					e.effect(in, st)
 					continue
 				}
